@@ -12,9 +12,9 @@ from sv import core
 
 PROPERTY = "C06"
 GEN = []
-PROPS = ["ScoresVerif/Props/C06.lean"]
+PROPS = ["ScoresVerif/Props/C06.lean", "ScoresVerif/Props/C06Bridge.lean"]
 DRIVER_DEPS = ["ScoresVerif.Driver.C06"]
-AUDIT_FILES = ["ScoresVerif/Lemmas/CrpsEns.lean", "ScoresVerif/Lemmas/CrpsEnsBrier.lean", "ScoresVerif/Model/CrpsEns.lean", "ScoresVerif/Spec/CrpsEns.lean"]
+AUDIT_FILES = ["ScoresVerif/Lemmas/Bridge.lean", "ScoresVerif/Lemmas/CrpsEns.lean", "ScoresVerif/Lemmas/CrpsEnsBrier.lean", "ScoresVerif/Model/CrpsEns.lean", "ScoresVerif/Spec/CrpsEns.lean"]
 LEVEL = "proof"
 TRUSTED = ["hand-written model Model/CrpsEns.lean of crps_for_ensemble / tw variants / brier per-case formula "
            "(tied by differential correspondence only, no translator)",
